@@ -38,6 +38,7 @@ type c08Scenario struct {
 	Seed      int64   `json:"seed"`
 	Order     string  `json:"order"`   // fifo | lifo | random : release order of parked sends
 	Stale     bool    `json:"stale"`   // staleness scenario: no gating, measure add -> send delay
+	PhaseMs   int     `json:"phase_ms"` // pause before the first Add (a random phase against the batcher's heartbeat)
 	Contend   bool    `json:"contend"` // every second Add queues on the batcher mutex BEHIND the heartbeat while the open batch has expired
 }
 
@@ -187,6 +188,9 @@ func c08RunScenario(sc *c08Scenario) *c08Run {
 	adders := sc.Adders
 	if adders < 1 {
 		adders = 1
+	}
+	if sc.PhaseMs > 0 {
+		time.Sleep(time.Duration(sc.PhaseMs) * time.Millisecond)
 	}
 	var addMu sync.Mutex // makes (log, Add) atomic so that the recorded order is the Add order
 	for a := 0; a < adders; a++ {
